@@ -18,9 +18,18 @@ LAMS = {0: lambda k: 1 / (1 + k), 1: lambda k: 0.5 * k + 1, 2: lambda k: 1 - k /
 def build(case, init_nm, init_c):
     lin = nn.Linear(2, 1, bias=False)
     nn.init.zeros_(lin.weight)
-    gsm = GradSampleModule(lin, loss_reduction='sum')
+    gsm = GradSampleModule(lin, loss_reduction='sum') if case.get('opt') != 'ghost' else None
     inner = torch.optim.SGD(lin.parameters(), lr=0.0)
-    if case.get('opt') == 'per_layer':
+    if case.get('opt') == 'ghost':
+        # ghost clipping: the clipping coefficient is computed by the wrapped module, the noise by the optimizer
+        from opacus.grad_sample import GradSampleModuleFastGradientClipping
+        from opacus.optimizers import DPOptimizerFastGradientClipping
+        from opacus.utils.fast_gradient_clipping_utils import DPLossFastGradientClipping
+        gsm = GradSampleModuleFastGradientClipping(lin, loss_reduction='sum', max_grad_norm=init_c, use_ghost_clipping=True)
+        opt = DPOptimizerFastGradientClipping(inner, noise_multiplier=init_nm, max_grad_norm=init_c, expected_batch_size=1, loss_reduction='sum')
+        crit = DPLossFastGradientClipping(gsm, opt, nn.MSELoss(reduction='sum'), 'sum')
+        gsm._verif_fb = lambda x: crit(gsm(x).squeeze(-1), torch.ones(x.shape[0])).backward()
+    elif case.get('opt') == 'per_layer':
         # per-layer clipping: the scheduled scalar max_grad_norm is the norm of the list of per-layer bounds (one tensor here)
         opt = DPPerLayerOptimizer(inner, noise_multiplier=init_nm, max_grad_norm=[init_c], expected_batch_size=1, loss_reduction='sum')
     else:
@@ -45,6 +54,14 @@ def build(case, init_nm, init_c):
     return lin, gsm, opt, acc, sch
 
 
+def fb(gsm, x):
+    f = getattr(gsm, '_verif_fb', None)
+    if f is not None:
+        f(x)
+    else:
+        gsm(x).sum().backward()
+
+
 def live(opt, fam):
     return float(opt.noise_multiplier if fam == 'noise' else opt.max_grad_norm)
 
@@ -64,7 +81,7 @@ def run_case(case):
                 # one physical batch of a logical batch (a skipped step): a single huge sample along (1, 0)
                 if pend_v is None:
                     opt.signal_skip_step(do_skip=True)
-                    gsm(torch.tensor([[5.0e6, 0.0]])).sum().backward()
+                    fb(gsm, torch.tensor([[5.0e6, 0.0]]))
                     opt.step()
                     opt.zero_grad()
                     pend_v = float(opt.max_grad_norm)
@@ -73,7 +90,7 @@ def run_case(case):
                 if pend_v is not None:
                     opt.signal_skip_step(do_skip=False)
                 with NormalLog(zero=True) as nl:
-                    gsm(x).sum().backward()
+                    fb(gsm, x)
                     opt.step()
                 g_ = lin.weight.grad.flatten().tolist()
                 norm = float(lin.weight.grad.norm()) if pend_v is None else abs(g_[1])
